@@ -286,7 +286,8 @@ fn run_decision(c: &DCase) -> DOut {
 }
 
 fn decision_hosts() -> Vec<String> {
-    let labels = ["a", "b", "ab", "xa", "1a"];
+    // ("x-a": a host that ends with the letters of the entry a behind a hyphen is not below it)
+    let labels = ["a", "b", "ab", "xa", "1a", "x-a"];
     let mut v: Vec<String> = Vec::new();
     for l1 in labels {
         v.push(l1.to_string());
@@ -626,7 +627,7 @@ fn w_names(w: u8, https: bool) -> String {
     v.join(" | ")
 }
 
-const PROBE_HOSTS: [&str; 8] = ["a", "x.a", "xa", "b", "b.a", "c", "c.", "[::1]"];
+const PROBE_HOSTS: [&str; 10] = ["a", "x.a", "xa", "b", "b.a", "c", "c.", "[::1]", "x-a", "x_a"];
 const PROBE_SCHEMES: [&str; 2] = ["http", "https"];
 
 fn proxy_value(var: usize, kind: &str) -> Option<String> {
